@@ -84,12 +84,44 @@ package mvt
 
 // the command encoder and the id conversion only allocate and write their own new objects: callers
 // use these (empty) contracts with the effect sets computed from the bodies instead of inlining them
+// what the geometry command encoder accepts without indexing an empty line or ring (it reads [0] of
+// every line and ring): outside that, mvt.Marshal panics — seen, outside the clauses claimed for C03
+//@ spec encodable(g orb.Geometry) bool = g != nil && (istype(g, orb.LineString) ==> len(as(g, orb.LineString)) >= 1) && (istype(g, orb.Ring) ==> len(as(g, orb.Ring)) >= 1) && (istype(g, orb.MultiLineString) ==> (forall k :: 0 <= k && k < len(as(g, orb.MultiLineString)) ==> len(as(g, orb.MultiLineString)[k]) >= 1)) && (istype(g, orb.Polygon) ==> (forall k :: 0 <= k && k < len(as(g, orb.Polygon)) ==> len(as(g, orb.Polygon)[k]) >= 1)) && (istype(g, orb.MultiPolygon) ==> (forall j, k :: 0 <= j && j < len(as(g, orb.MultiPolygon)) && 0 <= k && k < len(as(g, orb.MultiPolygon)[j]) ==> len(as(g, orb.MultiPolygon)[j][k]) >= 1))
+
+// the capacity estimates are sums of lengths: non-negative (their overflow is a listed `ovf assume`)
+//@ func elMLS(mls)
+//@   ovf assume
+//@   pure
+//@   ensures result >= 0
+//@   loop 1: invariant c >= 0
+//@ func elP(p)
+//@   ovf assume
+//@   pure
+//@   ensures result >= 0
+//@   loop 1: invariant c >= 0
+//@ func elMP(mp)
+//@   ovf assume
+//@   pure
+//@   ensures result >= 0
+//@   loop 1: invariant c >= 0
+
+// rings: the first vertex is the MoveTo, a CLOSED ring drops its repeated last vertex from the LineTo
+// (ClosePath stands for it) and only a closed ring does; an open ring keeps every vertex. Sites of
+// LineTo in source order: 1 line, 2 multi-line, 3/4 ring closed/open, 5/6 polygon, 7/8 multi-polygon.
 //@ func encodeGeometry(g)
+//@   opt makecap=assume
+//@   requires encodable(g)
+//@   callpre LineTo#3: orb.Ring.Closed(g) && len(arg1) == len(g) - 2
+//@   callpre LineTo#4: !orb.Ring.Closed(g) && len(arg1) == len(g) - 1
+//@   callpre LineTo#5: orb.Ring.Closed(r) && len(arg1) == len(r) - 2
+//@   callpre LineTo#6: !orb.Ring.Closed(r) && len(arg1) == len(r) - 1
+//@   callpre LineTo#7: orb.Ring.Closed(r) && len(arg1) == len(r) - 2
+//@   callpre LineTo#8: !orb.Ring.Closed(r) && len(arg1) == len(r) - 1
 //@ func convertID(id)
 
 // one geometry adds exactly one feature to the layer, or none and an error
 //@ func addSingleGeometryFeature(layer, kve, g, p, id)
-//@   requires layer != nil && kve != nil
+//@   requires layer != nil && kve != nil && encodable(g)
 //@   modifies *layer, *kve, layer.Features[*]
 //@   ensures result == nil ==> len(layer.Features) == old(len(layer.Features)) + 1
 //@   ensures result != nil ==> len(layer.Features) == old(len(layer.Features))
@@ -98,6 +130,8 @@ package mvt
 // feature; any other geometry becomes one feature
 //@ func addFeature(layer, kve, f)
 //@   requires layer != nil && kve != nil && f != nil
+//@   requires f.Geometry != nil && !istype(f.Geometry, orb.Collection) ==> encodable(f.Geometry)
+//@   requires istype(f.Geometry, orb.Collection) ==> (forall k :: 0 <= k && k < len(as(f.Geometry, orb.Collection)) ==> encodable(as(f.Geometry, orb.Collection)[k]))
 //@   modifies *layer, *kve, layer.Features[*]
 //@   ensures f.Geometry == nil ==> result == nil && len(layer.Features) == old(len(layer.Features))
 //@   ensures result == nil && istype(f.Geometry, orb.Collection) ==> len(layer.Features) == old(len(layer.Features)) + len(as(f.Geometry, orb.Collection))
